@@ -31,22 +31,44 @@ def read_source(path):
     return _SRC_CACHE[path]
 
 
-def load_source(path, fullname, package, overrides=None, pre=None):
+_CODE_CACHE = {}
+
+
+def load_source(path, fullname, package, overrides=None, pre=None, siblings=None):
     """Compile and execute the file at path into a fresh module object named fullname, then rebind
-    the given global names.  pre: names bound *before* execution (seen by module-level code)."""
-    src = read_source(path)
-    code = compile(src, path, "exec")
+    the given global names.  pre: names bound *before* execution (seen by module-level code).
+    siblings: {submodule name: module} installed in sys.modules / on the package while the module
+    body runs, so that ``from . import x`` (e.g. a base class) resolves to a shim-loaded module."""
+    if path not in _CODE_CACHE:
+        _CODE_CACHE[path] = compile(read_source(path), path, "exec")
+    code = _CODE_CACHE[path]
     mod = types.ModuleType(fullname)
     mod.__file__ = path
     mod.__package__ = package
     if pre:
         mod.__dict__.update(pre)
     saved = sys.modules.get(fullname)
+    restore = []
+    if siblings:
+        pkg = importlib.import_module(package)
+        for name, m in siblings.items():
+            full = package + "." + name
+            importlib.import_module(full)      # make sure the genuine one is imported first
+            restore.append((full, sys.modules.get(full), name, getattr(pkg, name, None)))
+            sys.modules[full] = m
+            setattr(pkg, name, m)
     try:
         exec(code, mod.__dict__)
     finally:
         if saved is not None:
             sys.modules[fullname] = saved
+        if siblings:
+            pkg = importlib.import_module(package)
+            for full, old_mod, name, old_attr in restore:
+                if old_mod is not None:
+                    sys.modules[full] = old_mod
+                if old_attr is not None:
+                    setattr(pkg, name, old_attr)
     if overrides:
         mod.__dict__.update(overrides)
     return mod
@@ -62,9 +84,9 @@ def ensure_repo_on_path():
             del sys.modules[k]
 
 
-def load_plotink(modname, overrides=None, pre=None):
+def load_plotink(modname, overrides=None, pre=None, siblings=None):
     ensure_repo_on_path()
-    return load_source(repo_file(modname), "plotink." + modname, "plotink", overrides, pre)
+    return load_source(repo_file(modname), "plotink." + modname, "plotink", overrides, pre, siblings)
 
 
 def load_dep(dotted, overrides=None):
